@@ -87,7 +87,7 @@ PROPS = {
               rule='as C10; non-trivial when >= 2 segments are emitted',
               assumptions=['bounded: sequences up to the stated length over the stated dts-step / composition-offset alphabets, plus seeded random runs of up to 100 samples', 'the constant-cadence clause is judged only when every segment holds >= 2 samples']),
 
-    'C04': _p(lambda t: ['contract', 'reject', 'finish', 'bound', 'fnopus', 'fncfg', 'fnobu'],
+    'C04': _p(lambda t: ['contract', 'reject', 'finish', 'bound', 'fnopus', 'fncfg', 'fnobu', 'mutbytes'],
               rule='a case is a (state-building prefix, probe call) history enumerated by TLC from MCMuxide (scenarios contract/reject/finish); non-trivial when some call is rejected or >= 2 calls are accepted'),
     'C05': _p(lambda t: ['reject', 'frag', 'bound'],
               rule='a case is a history pair (H, H minus its rejected calls), both executed and compared; non-trivial when H contains a rejected call followed by an accepted call or a finish'),
